@@ -8,7 +8,7 @@ INT, FLOAT = 'int', 'float'
 ALL_FEATS = {
     'arith', 'div', 'cmp_value', 'logic_value', 'bitwise', 'neg', 'not', 'ternary', 'diffswitch', 'casts', 'math',
     'locals', 'assign_ops', 'calls', 'if', 'while', 'dowhile', 'times', 'times_clobber', 'loop', 'break', 'block',
-    'goto', 'condjump', 'countjump', 'timelabels', 'sigils', 'logic_cond', 'neg_time', 'difflabels', 'rawregs',
+    'goto', 'condjump', 'countjump', 'timelabels', 'sigils', 'logic_cond', 'neg_time', 'difflabels', 'rawregs', 'const_conds', 'diffruns',
 }
 
 
@@ -447,7 +447,9 @@ class BodyGen:
         r = self.rng
         self.use('if')
         kw = lambda: 'unless' if r.chance(0.15) else 'if'
-        s = '%s (%s) %s' % (kw(), self.cond(), self.block(depth + 1, in_loop=in_loop))
+        c0 = self.cond()
+        if self.has('const_conds') and r.chance(0.1): c0 = r.pick(['0', '1', '5', '2 - 2', '3 == 3']); self.use('const-cond-if')
+        s = '%s (%s) %s' % (kw(), c0, self.block(depth + 1, in_loop=in_loop))
         for _ in range(r.wpick([(0, 5), (1, 2), (2, 1)])):
             s += ' else %s (%s) %s' % (kw(), self.cond(), self.block(depth + 1, in_loop=in_loop))
         if r.chance(0.5):
@@ -466,6 +468,10 @@ class BodyGen:
     def s_while(self, depth, in_loop):
         r = self.rng
         self.use('while')
+        if self.has('const_conds') and r.chance(0.15):
+            # a loop that is never entered (constant condition): its body still carries time labels
+            self.use('const-false-loop')
+            return 'while (%s) %s' % (r.pick(['0', '0', '1 - 1', '3 == 4']), self.block(depth + 1, in_loop=True))
         c = self._counter()
         if self.has('countjump') and r.chance(0.3):
             self.use('countjump')
@@ -480,6 +486,9 @@ class BodyGen:
     def s_dowhile(self, depth, in_loop):
         r = self.rng
         self.use('dowhile')
+        if self.has('const_conds') and r.chance(0.15):
+            self.use('const-false-loop')
+            return 'do %s while (%s);' % (self.block(depth + 1, in_loop=True), r.pick(['0', '2 - 2']))
         c = self._counter()
         if self.has('countjump') and r.chance(0.3):
             self.use('countjump')
@@ -537,8 +546,9 @@ class BodyGen:
 
     def s_break(self, depth, in_loop):
         self.use('break')
-        if self.rng.chance(0.6):
-            return 'if (%s) { break; }' % self.cond()
+        k = self.rng.random()
+        if k < 0.4: return 'if (%s) { break; }' % self.cond()
+        if k < 0.7: self.use('condbreak'); return '%s (%s) break;' % (self.rng.pick(['if', 'if', 'unless']), self.cond())
         return 'break;'
 
     def _skipped(self, depth, in_loop):
